@@ -26,6 +26,8 @@ def run(ctx):
     ctx.guard(lexrules.lineno_rule, ctx, 'C13-LINENO', CLS, floor=30)
     ctx.guard(track, ctx)
     ctx.guard(converters, ctx)
+    from . import c07 as _c07
+    ctx.shared(_c07.node_ctors, ctx, lexrules.grammar_of(ctx.repo, CLS))   # nodes of different parses share nothing (positions, children)
     ctx.assume('ply.yacc (LALR, linear time) and ply.lex (one master regex per input position) behave as documented; '
                'yacc tracking=1 propagates lexpos/endlexpos/lineno of the first/last symbol to non-terminals')
     ctx.assume('positions of nodes built by empty productions are not decided')
